@@ -497,6 +497,9 @@ func (c *CaseC08) Eval(ob *Obs) []Finding {
 	if r.Failed {
 		ob.probe("command_failed_cleanly")
 	}
+	if strings.HasPrefix(r.Panic, "hang:") {
+		return []Finding{{"C08 hang cmd=" + c.Base.Inv.Shape, short(r.Panic, 300)}}
+	}
 	if r.Panic != "" {
 		site := crashSite(r.Stack)
 		return []Finding{{"C08 panic cmd=" + c.Base.Inv.Shape + " at=" + site, fmt.Sprintf("%s\n%s", short(r.Panic, 200), short(r.Stack, 1500))}}
